@@ -1,11 +1,12 @@
 """C16 — context-free transaction and block checks (CheckTransaction, CheckBlockHeader, CheckBlock)."""
 import copy
+import json
 import random
 import struct
 
 from ..framework import Prop, mk, guarded, ensure_repo_on_path
 from .. import txfmt
-from .c15 import (build_block, run_seq, ZERO32, dsha, ser_tx, ser_header, ser_varint, txid, wtxid, ref_root, ref_witness_root,
+from .c15 import (build_block, run_seq, seq_agree, apply_plain, apply_objs, NOWIT, ZERO32, dsha, ser_tx, ser_header, ser_varint, txid, wtxid, ref_root, ref_witness_root,
                   has_witness, rnd_bytes)
 
 CHAINS = ('mainnet', 'testnet', 'signet', 'regtest')
@@ -638,8 +639,8 @@ class C16(Prop):
                     'btcmodel executable = compiled Model.* (Lean compiler)']
     assumptions = ['every SHA-256d digest is 32 bytes long (explicit hypothesis HashLen of checkHeader_iff / '
                    'checkBlock_iff / reject_is_validation; hash256 is opaque in proofs)',
-                   'blocks are observed as CBlock objects built by the library constructor (vWitnessMerkleTree is what '
-                   'the constructor computed from vtx)', 'the clock is injected through cur_time']
+                   'blocks are observed as CBlock objects obtained through the public routes (the constructor, or '
+                   'CBlock.deserialize where the constructor would refuse or replace the declared root)', 'the clock is injected through cur_time']
     rule = ('generated valid regtest blocks (1..9 transactions; no / coinbase-only / partial / full witness data; nonce '
             'ground in the harness) and, per block, every single-rule edit of the catalogue with each boundary on '
             'both sides, applied to the coinbase and to another transaction; each case is judged by the model and, '
@@ -671,6 +672,7 @@ class C16(Prop):
             return g % nshards == shard
 
         yield from self.gen_sequences(tier, shard, nshards)
+        yield from self.gen_mutable_histories(tier, shard, nshards)
         # (a) blocks and their edits
         shapes = [(1, 'none'), (1, 'cbonly'), (2, 'none'), (2, 'some'), (2, 'nocommit'), (3, 'all'), (3, 'some'),
                   (4, 'cbonly'), (5, 'some'), (5, 'none'), (8, 'all'), (9, 'some'), (2, 'all'), (3, 'nocommit'),
@@ -887,6 +889,50 @@ class C16(Prop):
             if i % nshards == shard:
                 yield mk('c16.seq', 3, *[spec(o) for o in objs], *steps, tag='seq history')
 
+    # ---- a valid block assembled from MUTABLE transactions whose identifiers were taken before they were edited
+    #      into their final values: CheckBlock must accept it (a stale txid / wtxid / size shows as a refusal at
+    #      construction or as a rejection)
+    def gen_mutable_histories(self, tier, shard, nshards):
+        big = tier == 'thorough'
+        crng = random.Random('%s:%s:%s:muthist' % (getattr(self, 'seed', 0), self.id, tier))
+        i = 0
+        warms = ['GetTxid', 'GetHash', 'hash', 'serialize', 'serialize0', 'calc_weight']
+        for _ in range(400 if big else 48):
+            ntx = crng.choice([2, 3, 4])
+            final = valid_block(crng, ntx, crng.choice(['some', 'all', 'none', 'cbonly']))
+            pre = copy.deepcopy(final.vtx)
+            edits = []
+            for _ in range(crng.randint(1, 4)):
+                k = crng.randrange(ntx)
+                t = final.vtx[k]
+                f = crng.choice(['nv', 'spk', 'sig', 'seq', 'lock', 'ver', 'wit'])
+                if f == 'nv':
+                    j = crng.randrange(len(t['vout'])); pre[k]['vout'][j] = (t['vout'][j][0] + 1 + crng.randrange(5), pre[k]['vout'][j][1])
+                    edits.append(['nv', k, j, t['vout'][j][0]])
+                elif f == 'spk':
+                    j = crng.randrange(len(t['vout'])); pre[k]['vout'][j] = (pre[k]['vout'][j][0], b'\x51' + pre[k]['vout'][j][1])
+                    edits.append(['spk', k, j, t['vout'][j][1].hex()])
+                elif f == 'sig':
+                    j = crng.randrange(len(t['vin'])); h, n, sc, q = pre[k]['vin'][j]; pre[k]['vin'][j] = (h, n, sc + b'\x00', q)
+                    edits.append(['sig', k, j, t['vin'][j][2].hex()])
+                elif f == 'seq':
+                    j = crng.randrange(len(t['vin'])); h, n, sc, q = pre[k]['vin'][j]; pre[k]['vin'][j] = (h, n, sc, q ^ 1)
+                    edits.append(['seq', k, j, t['vin'][j][3]])
+                elif f == 'lock':
+                    pre[k]['lock'] = (t['lock'] + 1) % 2 ** 32
+                    edits.append(['lock', k, t['lock']])
+                elif f == 'ver':
+                    pre[k]['ver'] = t['ver'] + 1
+                    edits.append(['ver', k, t['ver']])
+                else:
+                    pre[k]['wit'] = [[b'\x09', b'\x08']] + [[] for _ in t['vin'][1:]]
+                    edits.append(['wit', k, None if t.get('wit') is None else [[x.hex() for x in st] for st in t['wit']]])
+            warm = [w for w in warms if crng.random() < 0.6] or ['GetHash']
+            i += 1
+            if i % nshards == shard:
+                yield mk('c16.hist', 'regtest', final.now, ','.join(warm), '/'.join(txfmt.show_tx(t) for t in pre),
+                         json.dumps(edits), txfmt.show_header(final.hdr), tag='mutable-history ntx=%d' % ntx)
+
     def block_cases(self, chain, tag, b, spec=True):
         fpow = b.fpow if chain == 'regtest' else 0
         args = (chain, b.now, fpow, b.fmerkle, b.text())
@@ -894,7 +940,8 @@ class C16(Prop):
         if spec:
             yield mk('c16.spec.checkblock', *args, tag='spec ' + tag)
         if tag.startswith(('commit', 'valid', 'spec commit', 'vtx-empty', 'no-witness', 'cb:vout-empty')):
-            yield mk('c16.commitidx', b.text(), tag='commitidx ' + tag)
+            # (auxiliary tie of an anchored helper; on a block without transactions it is outside every statement)
+            yield mk('c16.commitidx', b.text(), tag='commitidx ' + tag, ood=not b.vtx)
         if chain != 'regtest' and b.fpow:
             # the regtest-grade proof of work does not meet the other chains' limit
             yield mk('c16.checkblock', chain, b.now, 1, b.fmerkle, b.text(), tag=tag + ' pow-checked')
@@ -906,7 +953,14 @@ class C16(Prop):
         yield mk('c16.spec.checktx', chain, cls, s, tag='spec ' + tag)
 
     # ---- the real code ---------------------------------------------------------------------
+    def hist_final(self, a):
+        txs = apply_plain([txfmt.parse_tx(x) for x in a[3].split('/')], json.loads(a[4]))
+        return dict(hdr=txfmt.parse_header(a[5]), vtx=txs)
+
     def model_line(self, c):
+        if c['op'] == 'c16.hist':
+            a = c['args']
+            return '\t'.join(['c16.checkblock', a[0], a[1], '1', '1', txfmt.show_block(self.hist_final(a))])
         if c['op'] in ('c16.checktx', 'c16.spec.checktx'):
             a = c['args']
             return '\t'.join([c['op'], a[0], a[2]])
@@ -930,6 +984,27 @@ class C16(Prop):
             return guarded(f)
         if op == 'c16.seq':
             return run_seq(C, self.bitcoin, a)
+        if op == 'c16.hist':
+            def f():
+                final = self.hist_final(a)
+                objs = [txfmt.to_tx(txfmt.parse_tx(x), mutable=True) for x in a[3].split('/')]
+                for t in objs:
+                    for w in a[2].split(','):
+                        guarded({'GetTxid': t.GetTxid, 'GetHash': t.GetHash, 'hash': lambda: hash(t),
+                                 'serialize': t.serialize, 'calc_weight': t.calc_weight,
+                                 'serialize0': lambda: t.serialize(dict(include_witness=False))}[w])
+                apply_objs(objs, json.loads(a[4]))
+                if [txfmt.from_tx(o) for o in objs] != final['vtx']:
+                    return 'harness:field-values-differ'
+                h = final['hdr']
+                self.bitcoin.SelectParams(a[0])
+                try:
+                    blk = C.CBlock(h['ver'], h['prev'], h['merkle'], h['time'], h['bits'], h['nonce'], objs)
+                    C.CheckBlock(blk, cur_time=int(a[1]))
+                finally:
+                    self.bitcoin.SelectParams('mainnet')
+                return 'ok'
+            return guarded(f)
         if op in ('c16.checktx', 'c16.spec.checktx'):
             t = txfmt.parse_tx(a[2])
             return under(a[0], lambda: C.CheckTransaction(txfmt.to_tx(t, mutable=(a[1] == 'm'))))
@@ -947,6 +1022,15 @@ class C16(Prop):
         if op in ('c16.sigops', 'c16.spec.sigops'):
             return guarded(lambda: str(self.CScript(bytes.fromhex(a[0])).GetSigOpCount(False)))
         raise ValueError(op)
+
+    def agree(self, c, io, mo):
+        op = c['op']
+        if op == 'c16.seq':
+            return seq_agree(c, io, mo)
+        if op == 'c16.commitidx':
+            # the helper's way of saying "no commitment" is not part of the statement
+            return io == mo or (io.startswith('err:') and mo.startswith('err:'))
+        return io == mo
 
     def nontrivial(self, c, io):
         return True
